@@ -1398,6 +1398,7 @@ def run(ctx):
                      {'declared': got, 'expected': t})
     if ctx.ensure_library():
         ctx.prove(['theories/Props/C04.v'])
+        ctx.loops_obligations()        # regenerated from the current source: see coq/obl/Lp_C04.v
     cases = load_corpus() + gen_cases(ctx.rng, ctx.tier)
     ctx.log('%d cases' % len(cases))
     stride = 1 if ctx.tier == 'quick' else 2
